@@ -30,6 +30,10 @@ def cfg : Cfg :=
     goneBeforeCb := Gen.C15.goneBeforeCb
     pollAsksHook := Gen.C15.pollAsksHook
     hookDefaultIsKill := Gen.C15.hookDefaultIsKill
-    linuxWaitPassesNoHook := Gen.C15.linuxWaitPassesNoHook }
+    linuxWaitPassesNoHook := Gen.C15.linuxWaitPassesNoHook
+    stopReadsSteady := Gen.C15.stopReadsSteady
+    checkReadsSteady := Gen.C15.checkReadsSteady
+    procsDeadlineSteady := Gen.C15.procsDeadlineSteady
+    procsSliceSteady := Gen.C15.procsSliceSteady }
 
 end Psutil.C15
